@@ -116,8 +116,8 @@ CHECKS = {
             "view reads in simulation (incl. array slices and dynamic indices) and writes through view fields by ctx.set, "
             "comb and sync statements are compared with a slice model; Struct/Union classes with defaults; shaped "
             "Enum/IntEnum/Flag/IntFlag round trips and FlagView operators against Python's enum.Flag.",
-            "Model in vchecks/c15.py. Synthesis (RTLIL) agreement for view assignments is covered through C04's evaluator when "
-            "that check is registered; here comb/sync statements are judged in simulation.",
+            "Model in vchecks/c15.py. View reads and combinational writes (field-then-whole and whole-then-field orders) are "
+            "repeated on the emitted RTLIL through vlib/rtlil_eval.py (synthesis leg).",
             "DESIGN.md §4 C15"),
     "C18": ("exploration",
             "Hypothesis-generated port expressions (slice / + / ~ over base ports with arbitrary inversion tuples and "
@@ -185,8 +185,9 @@ CHECKS = {
             "All row shapes, depths (0, 1, non-powers of two), port sets, transparency sets and granularities are generated "
             "with collision-biased addresses; every read port and every row is compared with the model after every event, "
             "including coincident edges of two domains and direct row access from the testbench.",
-            "Model in vchecks/c11.py; reset-less domains; simulator process order pinned (vlib/simorder.py). The RTLIL side "
-            "of the property is exercised through C04's evaluator.",
+            "Model in vchecks/c11.py; reset-less domains; simulator process order pinned (vlib/simorder.py). A second part "
+            "converts each generated memory (next to a decoy memory in the same module) to RTLIL and runs it in "
+            "vlib/rtlil_eval.py against the simulator wherever the RTLIL is defined.",
             "DESIGN.md §4 C11"),
     "C03": ("exploration",
             "Hypothesis-generated module trees with stacked ResetInserter/EnableInserter/DomainRenamer wrappers, memories, "
@@ -220,8 +221,11 @@ CHECKS = {
             "combinational links crossing module boundaries in all directions, random port sets) the RTLIL text is read "
             "by a reader written from the format description and executed by an evaluator written from the published "
             "cell semantics; after every event every output and every named signal of every module must agree with the "
-            "simulator (undefined RTLIL bits masked and counted). This validates each translation instance rather than the "
-            "translator, which is the strongest thing a generated-input technique can give for a compiler back end.",
+            "simulator (undefined RTLIL bits masked and counted; nothing but an unread memory read port may be undefined at "
+            "power-on). Further parts push C01's deep expression grammar through a submodule boundary, a register and a "
+            "narrower signal of the other signedness, and run the standard library's FIFOs, CRC and CDC blocks. This "
+            "validates each translation instance rather than the translator, which is the strongest thing a "
+            "generated-input technique can give for a compiler back end.",
             "Trusted base: vlib/rtlil_read.py, vlib/rtlil_eval.py (Yosys cell library semantics). $print/$check not executed.",
             "DESIGN.md §3, §4 C04"),
     "C07": ("exploration",
